@@ -9,6 +9,7 @@ def check(ctx):
     core2.sched_run_definitions(ctx, "C03", want_equiv=False)
     core2.mgr_runnable(ctx, "C03")
     core2.mgr_ready_dependencies(ctx, "C03")
+    core.mgr_relation_copy(ctx, "C03")  # user-level schedule_before(ready_dependent=True) must survive the copy to bodies
     core.cg_priority_passthrough(ctx, "C03")  # schedule_before passes ready_dependent through
     core2.mm_call_recording(ctx, "C03")
     core2.method_call_lowering(ctx, "C03")
